@@ -1,2 +1,3 @@
+import Proofs.C02
 import Proofs.C03
 import Proofs.C20
